@@ -15,6 +15,7 @@ META = {
                  'def-use closure for configuration independence of forced breaks',
 }
 META['text'] += ' The forced break the printers add on their own for very long sequences is a threshold on the number of elements only.'
+META['text'] += ' Round 5: the interpreted layouts include documents scaled past every size constant of the layout engine; the ribbon fraction computed by the entry gives back the requested ribbon on a grid of page / ribbon widths (L.b).'
 
 
 def run(repo, rep):
